@@ -379,7 +379,8 @@ def finish(ctx, level_rule, assumptions, exhaustive=False, trusted=None):
     for kid, (k, n) in sorted(hit.items()):
         log("KNOWN-FINDING: property=%s %s [%s] (%d events)" % (pid, k["what"], kid, n))
     if others:
-        log("note: events also rejected under other properties (reported by their own checks): %s" % others)
+        log("note: events also rejected under other ids (other properties are reported by their own checks; X.. ids are "
+            "behaviour the specification covers beyond the listed properties - reported, never an alarm): %s" % others)
         with open(ctx.path("other-bads.json"), "w") as f:
             json.dump([b for b in ctx.bads if b["prop"] != pid][:200], f, indent=1, default=str)
     replay = None
@@ -410,6 +411,7 @@ def finish(ctx, level_rule, assumptions, exhaustive=False, trusted=None):
         "rule": level_rule, "samples": ctx.samples[:5] or [{"note": "no implementation events in this run"}],
         "exhaustive": bool(exhaustive), "model_checking_runs": ctx.mc_runs,
         "known_findings_hit": {k: v[1] for k, v in hit.items()}, "notes": ctx.notes,
+        "rejected_under_other_ids": others,
         "trusted_base": trusted or ["TLC 1.8.0 + CommunityModules", "spec/overrides/HsOverrides.java (arithmetic only)",
                                     "harness alpha/gamma projection (harness/src/absval.rs)"],
         "checker_cmd": "./check %s --tier %s" % (pid, ctx.tier),
